@@ -62,7 +62,7 @@ def mapEncU (f : Val → VSt → Option (Bits × VSt)) : List Val → VSt → Op
 
 mutual
 def encUV : PTy → Val → VSt → Option (Bits × VSt)
-  | .seq root rattrs extensible adds, .seq vs, s =>
+  | .seq root rattrs extensible adds _, .seq vs, s =>
     match encRootU root rattrs vs s with
     | none => none
     | some (preamble, body, rest, s1) =>
